@@ -67,7 +67,7 @@ OTHER_XML = [
 
 def budget(tier):
     if tier == "quick":
-        return {"examples": 1600, "shards": 16, "time_s": 60}
+        return {"examples": 4800, "shards": 16, "time_s": 60}
     return {"examples": 128000, "shards": 16, "time_s": 1500}
 
 
